@@ -12,12 +12,14 @@ COQ_PREAMBLE = SR.PREAMBLE
 SHARD = 4
 FORM = SR.FORM_TEXT % 'calculate_ground_state_local_singlesite / calculate_ground_state_local_twosite'
 TRUSTED = SR.TRUSTED
-PARTIAL = ('proved (Properties/C10.v): for one local optimisation under the mixed-canonical invariant, relative to the Ritz contract of the local eigensolver '
-           '(theta = <A\'|H_eff A\'>, |A\'| = 1, theta <= Rayleigh quotient of the start tensor): the reported energy is <psi|H|psi> of the state with the new '
-           'tensor, it is >= every lambda with H >= lambda, it does not exceed the energy of the normalised state before the step; the QR gauge moves do not '
-           'change the state; the model returns one energy per sweep, that of the last local problem of the sweep; the solver schedule for all L. NOT '
-           'mechanised: the induction over the sweep that re-establishes the invariant after every QR / split (so monotonicity along a whole run and the '
-           'equality with the energy of the RETURNED state are proved per step only), reaching the exact ground energy on a complete manifold, rounding')
+PARTIAL = ('proved (Properties/C10.v, all closed under the global context): C10_dmrg1_whole_run -- for single-site DMRG, every L >= 2, every number of sweeps and '
+           'every bond profile, over Cx F for an arbitrary ordered field F: the returned state is normalised, the last reported energy equals <psi|H|psi> of '
+           'the returned state, the reported energies are non-increasing, none exceeds the energy of the normalised start state, each is >= lam for every lam '
+           'with H >= lam; relative to the contracts of the oracle calls the run issues, read off the emitted trace (block QR: LAPACK contract; local eigensolver: '
+           'Ritz contract |A\'| = 1, theta = <A\'|H_eff A\'>, theta <A|A> <= <A|H_eff A>; orthonormalize returns right-isometric tensors). Also the per-local-problem '
+           'versions, which energy a sweep records, the call schedules of both algorithms. NOT proved: two-site DMRG along a whole run (per local problem only; '
+           'the SVD-split contract and its induction are not mechanised), reaching the exact ground energy on a complete manifold (spectral theory), that '
+           'floating-point Lanczos meets the Ritz contract (measured), rounding (measured by prop()); H is an argument no model function returns or updates')
 ASSUMPTIONS = SR.ASSUMPTIONS
 RULE = ('Hermitian MPOs (XXZ, Ising, Bose-Hubbard, Fermi-Hubbard, random Hermitian with/without charges), L in 2..5, d >= 2, any bond profile, '
         '1..3 sweeps, 2..6 Lanczos iterations (complete-manifold cases: enough iterations), repeated invocations; two-site with zero split tolerance; '
